@@ -27,7 +27,10 @@ def _compute(tier, seed):
     r = tlc.run('PopLeaf', 'PopLeaf_%s.cfg' % tier)
     from . import replay_popleaf
     results = pmap(replay_popleaf.replay_case, [(rec, seed) for rec in r.records])
-    return dict(run=r.summary(), records=r.records, results=results)
+    reps = []
+    for k in range(3 if tier == 'quick' else 20):
+        reps += replay_popleaf.representation_checks(seed * 100 + k)
+    return dict(run=r.summary(), records=r.records, results=results, representations=reps)
 
 
 def run(tier, seed):
@@ -39,6 +42,8 @@ def run(tier, seed):
     for fails, cnt in out['results']:
         v.failures(fails)
         v.merge_counters(cnt)
+    for clause, man, detail in out['representations']:
+        v.failure(dict(case=dict(stage='representations'), clause=clause, manifestation=man, detail=detail, features=['representations']))
     # additivity / composition part: the PopLayout replay (Denotation + gradient clauses)
     comp = poplayout_run.run(tier, seed)
     ncomp = 0
